@@ -107,7 +107,7 @@ func SpecSum(max uint64, ctx []byte) *Spec[uint64, uint64] {
 func SpecSumVec(length, nbits, chunk uint, ctx []byte) *Spec[[]uint64, []uint64] {
 	return &Spec[[]uint64, []uint64]{
 		Type: "sumvec", Label: fmt.Sprintf("sumvec(length=%d,bits=%d,chunk=%d)", length, nbits, chunk), AlgID: 3, F: F128, Ctx: ctx,
-		MeasLen: int(length * nbits), OutLen: int(length), JointRand: true,
+		MeasLen: int(length * nbits), OutLen: int(length), JointRand: length*nbits > 0, // one joint-randomness element per gadget call
 		Enc: func(m []uint64) []*big.Int {
 			var e []*big.Int
 			for _, x := range m {
@@ -145,7 +145,7 @@ func SpecHistogram(length, chunk uint, ctx []byte) *Spec[uint64, []uint64] {
 	}
 	return &Spec[uint64, []uint64]{
 		Type: "histogram", Label: fmt.Sprintf("histogram(length=%d,chunk=%d)", length, chunk), AlgID: 4, F: F128, Ctx: ctx,
-		MeasLen: int(length), OutLen: int(length), JointRand: true,
+		MeasLen: int(length), OutLen: int(length), JointRand: length > 0,
 		Enc: oneHot, Out: oneHot, Agg: vecAgg,
 		Desc:  func(m uint64) string { return fmt.Sprint(m) },
 		Trunc: func(e []*big.Int) []*big.Int { return e },
